@@ -1,4 +1,4 @@
-CONSTANTS Impl = "trie"  Keys = {1, 2, 3}  NVal = 2  MaxIter = 0  Masks = {7} UseFree = TRUE
+CONSTANTS Impl = "trie"  Keys = {1, 2, 3}  NVal = 2  MaxIter = 0  Masks = {7} UseFree = TRUE  Tags = {0, 1}
 SPECIFICATION Spec
 INVARIANT TypeOK
 INVARIANT NotifScope
